@@ -11,6 +11,21 @@ QUERY_TIMEOUT_MS = int(os.environ.get("PYVC_QUERY_MS", "1500"))
 STATS = {'queries': 0, 'query_s': 0.0}
 
 
+_QCACHE = {}
+
+
+def _quantified(e):
+    k = e.get_id()
+    v = _QCACHE.get(k)
+    if v is None:
+        t = e.sexpr()
+        v = ('(forall ' in t) or ('(exists ' in t) or ('(lambda ' in t)
+        if len(_QCACHE) > 200000:
+            _QCACHE.clear()
+        _QCACHE[k] = v
+    return v
+
+
 class State:
     __slots__ = ('pc', 'env', 'heap', 'old_heap', 'old_env', 'notes', '_solver', '_solver_n', 'meta')
 
@@ -84,9 +99,23 @@ class State:
         s.set('smt.arith.nl', False)      # path queries: products stay opaque (fewer deductions, never unsound for 'unsat')
         s.set('smt.qi.max_instances', int(os.environ.get('PYVC_QI_MAX', '3000')))
         from .delambda import prepare
-        for p_ in prepare(list(self.pc) + list(extra)):
+        prepped = prepare(list(self.pc) + list(extra))
+        for p_ in prepped:
             s.add(p_)
         r = s.check()
+        if r == z3.unknown:
+            # quantifier-free fallback: many path facts (type tags, lengths) already follow from the ground part of the path condition;
+            # deciding them there does not depend on how far quantifier instantiation got within the time limit (unsat of a subset is unsat)
+            qflags = [_quantified(p_) for p_ in prepped]
+            if any(qflags) and not all(qflags):
+                s0 = z3.Solver()
+                s0.set('timeout', QUERY_TIMEOUT_MS)
+                s0.set('smt.arith.nl', False)
+                for p_, q_ in zip(prepped, qflags):
+                    if not q_:
+                        s0.add(p_)
+                if s0.check() == z3.unsat:
+                    r = z3.unsat
         STATS['queries'] += 1
         dt = time.time() - t0
         STATS['query_s'] += dt
